@@ -1,0 +1,131 @@
+//go:build verif
+
+// Package verifhook provides verification hook points (build tag "verif").
+//
+// Point(label) is called at linearization / crash points of production code.
+// With the tag on it (1) counts the hit, (2) kills the process with SIGKILL
+// on the n-th hit of a label when VERIF_CRASH=label:n is set, and (3) calls
+// an installed gate, which may block and thereby acts as a scheduler.
+// Publish(name, v) hands values built inside production code to subscribers.
+package verifhook
+
+import (
+	"fmt"
+	"os"
+	"strconv"
+	"strings"
+	"sync"
+	"syscall"
+)
+
+var (
+	mu        sync.Mutex
+	hits      = map[string]int{}
+	gate      func(label string)
+	subs      = map[string][]func(v any){}
+	published = map[string]any{}
+
+	crashLabel string
+	crashN     int
+	hitLog     *os.File
+)
+
+func init() {
+	if spec := os.Getenv("VERIF_CRASH"); spec != "" {
+		i := strings.LastIndex(spec, ":")
+		if i > 0 {
+			crashLabel = spec[:i]
+			crashN, _ = strconv.Atoi(spec[i+1:])
+		}
+	}
+	if p := os.Getenv("VERIF_HITLOG"); p != "" {
+		f, err := os.OpenFile(p, os.O_CREATE|os.O_WRONLY|os.O_APPEND, 0o644)
+		if err == nil {
+			hitLog = f
+		}
+	}
+}
+
+// Enabled reports whether the binary was built with verification hooks.
+func Enabled() bool { return true }
+
+// Point marks a labelled synchronization/crash point.
+func Point(label string) {
+	mu.Lock()
+	hits[label]++
+	n := hits[label]
+	g := gate
+	if hitLog != nil {
+		fmt.Fprintf(hitLog, "%s %d\n", label, n)
+	}
+	if crashLabel != "" && label == crashLabel && n == crashN {
+		if hitLog != nil {
+			fmt.Fprintf(hitLog, "CRASH %s %d\n", label, n)
+			_ = hitLog.Sync()
+		}
+		_ = syscall.Kill(os.Getpid(), syscall.SIGKILL)
+		select {}
+	}
+	mu.Unlock()
+	if g != nil {
+		g(label)
+	}
+}
+
+// SetGate installs (or removes, with nil) the gate called by every Point.
+func SetGate(g func(label string)) {
+	mu.Lock()
+	gate = g
+	mu.Unlock()
+}
+
+// Hits returns a copy of the per-label hit counters.
+func Hits() map[string]int {
+	mu.Lock()
+	defer mu.Unlock()
+	out := make(map[string]int, len(hits))
+	for k, v := range hits {
+		out[k] = v
+	}
+	return out
+}
+
+// ResetHits clears the hit counters.
+func ResetHits() {
+	mu.Lock()
+	hits = map[string]int{}
+	mu.Unlock()
+}
+
+// Publish hands a value constructed inside production code to a harness.
+func Publish(name string, v any) {
+	mu.Lock()
+	published[name] = v
+	fns := append([]func(any){}, subs[name]...)
+	mu.Unlock()
+	for _, fn := range fns {
+		fn(v)
+	}
+}
+
+// Subscribe registers fn to be called synchronously on every Publish(name).
+func Subscribe(name string, fn func(v any)) {
+	mu.Lock()
+	subs[name] = append(subs[name], fn)
+	mu.Unlock()
+}
+
+// Unsubscribe removes all subscribers of name.
+func Unsubscribe(name string) {
+	mu.Lock()
+	delete(subs, name)
+	mu.Unlock()
+}
+
+// Lookup returns the value most recently published under name.
+func Lookup(name string) (any, bool) {
+	mu.Lock()
+	defer mu.Unlock()
+	v, ok := published[name]
+	return v, ok
+}
